@@ -1039,15 +1039,33 @@ def nd_permutation(n, tag="rng"):
 
 
 class Generator:
-    """numpy.random.Generator stub. mode 'nondet': arbitrary permutations/subsets (forks);
-    mode 'identity': the identity permutation (stated as a cut where used)."""
+    """numpy.random.Generator stub.
+    mode 'nondet'  : arbitrary permutations/subsets (forks) - an unseeded generator
+    mode 'identity': the identity permutation (stated as a cut where used)
+    mode 'seeded'  : an uninterpreted function of (seed, call index): the first draw of a given
+                     (seed, index) is arbitrary, every later generator with the same seed and memo
+                     replays it - two runs with the same seed agree, unseeded draws do not"""
 
-    def __init__(self, mode="nondet", log=None):
+    def __init__(self, mode="nondet", log=None, memo=None, seed=0):
         self.mode = mode
         self.log = log if log is not None else []
+        self.memo = memo if memo is not None else {}
+        self.seed = seed
+        self.calls = 0
 
     def _perm(self, n):
-        p = list(range(n)) if self.mode == "identity" else nd_permutation(n)
+        if self.mode == "identity":
+            p = list(range(n))
+        elif self.mode == "seeded":
+            key = (self.seed, self.calls)
+            self.calls += 1
+            if key in self.memo and len(self.memo[key]) == n:
+                p = self.memo[key]
+            else:
+                p = nd_permutation(n)
+                self.memo[key] = p
+        else:
+            p = nd_permutation(n)
         self.log.append(p)
         return p
 
@@ -1077,7 +1095,7 @@ class Generator:
         return 1 if hi is None or lo <= 1 < hi else lo
 
     def spawn(self, n):
-        return [Generator(self.mode, self.log) for _ in range(n)]
+        return [Generator(self.mode, self.log, self.memo, (self.seed, "spawn", i)) for i in range(n)]
 
 
 class _Random:
